@@ -67,6 +67,7 @@ ENGINE = 'that the tokio engine tasks (select! loops, mpsc channels) call these 
 
 PROPS = {
     'C02': dict(
+        probes=[dict(name='cci_session_agreement', kind='agreement', target='fe2o3_amqp::session::consecutive_chunk_indices', args=['C02.cci-session'], claim='session::consecutive_chunk_indices (iterator adapters; enters unit SESSION as an assumed contract) agrees with its oracle: a new run starts exactly where the next id is not the previous + 1', bound='every ascending sequence of <= 6 ids over {0,1,2,3,5,6,2^32-2,2^32-1} (3003 sequences), real function through the verif-hooks facade'), dict(name='cci_receiver_agreement', kind='agreement', target='fe2o3_amqp::link::receiver_link::consecutive_chunk_indices', args=['C02.cci-receiver'], claim='receiver_link::consecutive_chunk_indices agrees with its oracle: a new run starts exactly where the id is not consecutive OR the per-delivery rcv-settle-mode changes', bound='every ascending sequence of <= 6 ids over 8 values x every assignment of {unset, first, second} (1.47 M cases), real function through the verif-hooks facade')],
         units=['SESSION', 'SENDSPLIT', 'LINK'], kani=[], level='proof', title='Settlement',
         assumptions=[ASYNC, ENGINE,
             'session::consecutive_chunk_indices enters with an assumed contract (iterator adapters are outside the Verus subset)',
@@ -167,6 +168,7 @@ PROPS = {
             'DECIDED: channel-max; the VALUES the timers are armed with (heartbeat period from the peer\'s idle-time-out, 0/unset => none; local deadline = configured idle-time-out, advertised value = half of it); one empty frame per heartbeat tick; none after the local Close. NOT DECIDED: the timed behaviour itself (tokio Interval/Sleep, deadline reset on every received frame in Transport::poll_next): no clock in either verifier',
             'slab::Slab modelled as a partial map whose vacant key is unoccupied']),
     'C10': dict(
+        probes=[dict(name='sections_agreement', kind='agreement', target='fe2o3_amqp::link::receiver_link::count_number_of_sections_and_offset', args=['C10.sections'], claim='count_number_of_sections_and_offset (enters unit REASM as an assumed contract: number <= len, offset <= len) stays within those bounds and, for smallulong descriptors, counts exactly the 00 53 7x headers and the distance of the last one from the end', bound='every byte string of <= 7 bytes over {00,53,70,75,78,80,01} (960 800 strings), real function through the verif-hooks facade')],
         units=['REASM', 'LINK', 'BYTEREADER'], kani=[], level='proof', title='Reassembly',
         lemmas={'REASM': ['lemma_concat_push', 'lemma_concat_one'], 'BYTEREADER': ['lemma_after_take', 'lemma_flat_drained']},
         assumptions=[ASYNC,
@@ -215,6 +217,12 @@ PROPS = {
 V_TEXT = 'Every listed clause is a machine-checked contract (ensures / loop invariant / lemma) on the function as extracted from /repo on this run; Verus discharges all obligations for all inputs and iterations with no bound. '
 for _p, _c in PROPS.items():
     _c.setdefault('level_text', V_TEXT + 'Partial: only the sequential cores named in the evidence are under contract; see assumptions.')
+    _t = 'contract-based deductive verification: Verus on functions extracted mechanically from /repo on every run'
+    if _c.get('kani'):
+        _t += '; Kani/CBMC harnesses on the real crates (complete where loop-free over the full domain, otherwise bounded stand-ins)'
+    if _c.get('probes'):
+        _t += '; bounded dynamic runs of the real functions (probe / agreement with the oracle of an assumed contract) as stated-bound stand-ins, never counted as proved'
+    _c.setdefault('technique', _t)
     _c.setdefault('level_note', 'Trusted: Verus/Z3, the extractor and its logged rewrite rules, prelude stand-ins for std/third-party containers and leaf types (listed in evidence.coverage.trusted_base); machine integers are machine integers; scheduling/async interleavings are outside the proof.')
 
 NOT_APPLICABLE = {
